@@ -26,6 +26,14 @@ def gen(rng, tier, n_quick=60, n_thorough=1500):
     for i in range(4 if tier == "quick" else 40):
         # a strut pinned at both ends that carries no load of its own: with -w it has its weight to carry like every other bar
         cases.append(core.case_from_struct(G.gen_bracket(rng), Weight=(i % 4 != 3), Solve=True, Assemble=True, Error="1e-6", ViaPre=(i % 2 == 1)))
+    # a bar with 3, 5, 7, 9 (11, 13 ...) distributed loads, solved with its own weight (one more load on every bar)
+    for k in ((3, 5, 7, 9) if tier == "quick" else (3, 5, 7, 9, 11, 13, 5, 6, 12, 17)):
+        s = G.gen_beam(rng)
+        b = s.bars[0]
+        s.loads = [{"kind": "d", "term": ["fy", "fx"][j % 2], "local": j % 3 != 0, "bar": b["id"], "t0": Fr(500 * j // k, 1000), "v0": Fr(-20 - 3 * j),
+                    "t1": Fr(500 * j // k, 1000) + Fr(2, 5), "v1": Fr(-5 - j)} for j in range(k)]
+        s.meta = {"kind": "many-distributed/%d" % k}
+        cases.append(core.case_from_struct(s, Weight=True, Solve=True, Assemble=True, Error="1e-5", ViaPre=False))
     # a beam held at its END node with a concentrated moment and a force inside its span next to a distributed load (the three
     # diagrams then have different numbers of entries), and the same kind of beam drawn in a unit in which it is 5e-3 long
     for i in range(2 if tier == "quick" else 12):
